@@ -39,6 +39,12 @@ def cases_for(ctx, flavor):
                 for tgt in ('3', '1', '2'):
                     for pre in ('', '0a' * 3):
                         out.append((prog, '>0' + pre + '1b' * n1 + '2c' * n1 + '3d' * n1 + '^' + tgt + (tgt + chr(ord('a') + int(tgt))) * 12 + '>0>0>0'))
+    if 'bp' in flavor:
+        # bp fork bracket (before_fork ... after_fork_parent) as the FIRST RCU-related action of a thread: a signal chosen at step k of the bracket stays pending while the
+        # bracket has signals blocked and is delivered when the mask is lifted - the handler then registers the thread, so no library lock may be held at that point
+        for prog in ('K(r)/(q)S', 'K/(r)S', 'K(q)K/S'):
+            for k in range(0, 30 if ctx.quick() else 60):
+                out.append((prog, '0a' * k + '^0' + '0a' * 40 + '>1>1'))
     n = len(out) + 150 if ctx.quick() else 6000
     while len(out) < n:
         prog = ctx.rng.choice(PROGS); th = [str(i) for i in range(prog.count('/') + 1)]
